@@ -290,7 +290,11 @@ func (conn *Conn) h_001(line *Line) {
 		if ok {
 			conn.st.NickInfo(me.Nick, ident, host, me.Name)
 		}
-		conn.cfg.Me = conn.st.ReNick(me.Nick, nick)
+		// ReNick returns nil if nothing changed, e.g. because the server
+		// has confirmed the nick we asked for; keep what we have then.
+		if neu := conn.st.ReNick(me.Nick, nick); neu != nil {
+			conn.cfg.Me = neu
+		}
 	} else {
 		conn.cfg.Me.Nick = nick
 		if ok {
@@ -322,7 +326,9 @@ func (conn *Conn) h_433(line *Line) {
 	// a NICK message to confirm our change of nick, so ReNick here...
 	if line.Args[1] == me.Nick {
 		if conn.st != nil {
-			conn.cfg.Me = conn.st.ReNick(me.Nick, neu)
+			if nk := conn.st.ReNick(me.Nick, neu); nk != nil {
+				conn.cfg.Me = nk
+			}
 		} else {
 			conn.cfg.Me.Nick = neu
 		}
